@@ -1,6 +1,1190 @@
-//! C13 — not implemented yet.
+//! C13 — Voting power equals delegated balances, now and at every past ledger.
+//!
+//! Targets: example `fungible-votes`, harness `FtVotes` (with burn), harness `NftVotes`
+//! (1 unit per NFT), and the bare `votes` library behind `VotesLib`.
+//!
+//! Oracle (reference model written from the statement): `units[a]`, `delegate[a]`; votes of `a`
+//! = Σ units of the accounts currently delegating to `a` (recomputed from scratch after every
+//! step); total = Σ units; per ledger the END-OF-LEDGER `(votes[..], total)` snapshot.  After
+//! every step the full current state is compared; every k-th step and at the end EVERY past
+//! ledger `start-2 ..= current-1` (and ledger 0) is queried for every account and for the total
+//! and compared with the model's snapshot (so a later operation that rewrites the past is seen);
+//! queries at `current` and `current+δ` must be refused.  `num_checkpoints(a)` = number of
+//! distinct ledgers in which an operation changed `a`'s votes (documented coalescing rule:
+//! "pushes a new checkpoint or updates the last one if same ledger").
+
+use crate::contracts::c13::{nft_votes::NftVotes, votes_lib::VotesLib};
+use crate::contracts::ft::ft_votes::FtVotes;
 use crate::engine::*;
+use crate::envx::{self, Inv};
+use crate::examples::fungible_votes::contract::ExampleContract as ExVotesContract;
+use crate::gen::pick;
+use proptest::prelude::*;
+use serde::{Deserialize, Serialize};
+use soroban_sdk::{Address, Env, TryFromVal, Val, Vec as SVec};
+use std::collections::{BTreeMap, BTreeSet};
+use std::panic::{catch_unwind, AssertUnwindSafe};
+use stellar_governance::votes as lib;
+
+const N: usize = 4;
+/// maximal ledger span of one history
+const MAX_SPAN: u32 = 200;
+/// first explicit NFT id (never reached by the sequential counter)
+const EXPLICIT_BASE: u32 = 1_000_000;
+/// budget installed around every single past-ledger query of a bulk sweep so that a non-terminating
+/// lookup is observed as a violation instead of hanging the run (a query normally needs < 1 % of this)
+const QUERY_CPU: u64 = 100_000_000;
+const QUERY_MEM: u64 = 400_000_000;
+
+// ------------------------------------------------------------------------------------ case
+
+#[derive(Clone, Copy, Debug, Serialize, Deserialize, PartialEq, Eq)]
+pub enum Target {
+    ExVotes,
+    FtVotes,
+    NftVotes,
+    Lib,
+}
+impl Target {
+    fn is_fungible(self) -> bool {
+        matches!(self, Target::ExVotes | Target::FtVotes)
+    }
+    fn is_token(self) -> bool {
+        !matches!(self, Target::Lib)
+    }
+    fn label(self) -> &'static str {
+        match self {
+            Target::ExVotes => "ex-fungible-votes",
+            Target::FtVotes => "ft-votes",
+            Target::NftVotes => "nft-votes",
+            Target::Lib => "lib",
+        }
+    }
+}
+
+/// Amount selector, resolved against the model at execution time.
+/// NFT flavour: `BalPlus(1)` selects a token the sender does NOT own (must fail); anything else an own token.
+#[derive(Clone, Debug, Serialize, Deserialize)]
+pub enum Amt {
+    Abs(u32),
+    /// (1 << 100) >> k for tokens; u128::MAX >> k for the bare library
+    Huge(u8),
+    /// balance * num / 4 (num = 4: full balance, 0: zero)
+    Frac(u8),
+    /// balance + d  (d = +1 must fail; balance 0 and d = -1 is a negative amount and must fail)
+    BalPlus(i8),
+}
+
+#[derive(Clone, Debug, Serialize, Deserialize)]
+pub enum DelSel {
+    SelfD,
+    Acct(u16),
+    /// the current delegate (documented error SameDelegate); self when there is none yet
+    Current,
+    /// any account different from the current delegate (always a change)
+    Changed(u16),
+}
+
+#[derive(Clone, Debug, Serialize, Deserialize)]
+pub enum Op {
+    Mint { to: u16, amt: Amt, explicit: bool },
+    Burn { from: u16, amt: Amt, tok: u16 },
+    BurnFrom { spender: u16, from: u16, amt: Amt, tok: u16 },
+    Transfer { from: u16, to: u16, amt: Amt, tok: u16 },
+    TransferFrom { spender: u16, from: u16, to: u16, amt: Amt, tok: u16 },
+    Delegate { who: u16, to: DelSel },
+    Advance { k: u8 },
+}
+
+#[derive(Clone, Debug, Serialize, Deserialize)]
+pub struct Case {
+    pub target: Target,
+    pub seq: u32,
+    /// a full past-ledger sweep after every `sweep_every`-th step (and at the end)
+    pub sweep_every: u8,
+    /// selectors of past ledgers also queried through the public entry points
+    pub probes: Vec<u16>,
+    pub ops: Vec<Op>,
+}
+
+fn amt_strategy(t: Target) -> BoxedStrategy<Amt> {
+    if t == Target::NftVotes {
+        return prop_oneof![9 => Just(Amt::Frac(4)), 1 => Just(Amt::BalPlus(1))].boxed();
+    }
+    prop_oneof![
+        4 => (0u32..=50).prop_map(Amt::Abs),
+        1 => any::<u32>().prop_map(Amt::Abs),
+        1 => (0u8..=8).prop_map(Amt::Huge),
+        8 => (0u8..=4).prop_map(Amt::Frac),
+        2 => prop_oneof![Just(-1i8), Just(0i8), Just(1i8)].prop_map(Amt::BalPlus),
+    ]
+    .boxed()
+}
+
+fn op_strategy(t: Target) -> BoxedStrategy<Op> {
+    let s = || any::<u16>();
+    let a = amt_strategy(t);
+    let mint_amt: BoxedStrategy<Amt> = if t == Target::NftVotes {
+        Just(Amt::Abs(1)).boxed()
+    } else {
+        prop_oneof![6 => (0u32..=100).prop_map(Amt::Abs), 2 => any::<u32>().prop_map(Amt::Abs), 1 => (0u8..=8).prop_map(Amt::Huge)].boxed()
+    };
+    let has_burn = t != Target::ExVotes;
+    let has_from = t != Target::Lib;
+    let del = prop_oneof![
+        2 => Just(DelSel::SelfD),
+        3 => s().prop_map(DelSel::Acct),
+        1 => Just(DelSel::Current),
+        4 => s().prop_map(DelSel::Changed),
+    ];
+    let adv = proptest::sample::select(vec![0u8, 0, 0, 1, 1, 2, 3, 4, 5, 6, 7, 8, 9, 10]);
+    prop_oneof![
+        5 => (s(), mint_amt, any::<bool>()).prop_map(|(to, amt, explicit)| Op::Mint { to, amt, explicit }),
+        (if has_burn { 2 } else { 0 }) => (s(), a.clone(), s()).prop_map(|(from, amt, tok)| Op::Burn { from, amt, tok }),
+        (if has_burn && has_from { 1 } else { 0 }) =>
+            (s(), s(), a.clone(), s()).prop_map(|(spender, from, amt, tok)| Op::BurnFrom { spender, from, amt, tok }),
+        7 => (s(), s(), a.clone(), s()).prop_map(|(from, to, amt, tok)| Op::Transfer { from, to, amt, tok }),
+        (if has_from { 3 } else { 0 }) =>
+            (s(), s(), s(), a.clone(), s()).prop_map(|(spender, from, to, amt, tok)| Op::TransferFrom { spender, from, to, amt, tok }),
+        5 => (s(), del).prop_map(|(who, to)| Op::Delegate { who, to }),
+        6 => adv.prop_map(|k| Op::Advance { k }),
+    ]
+    .boxed()
+}
+
+fn strategy_for(t: Target, tier: Tier) -> BoxedStrategy<Case> {
+    let max_ops = tier.pick(60usize, 90usize);
+    (
+        prop_oneof![1 => Just(2u32), 1 => Just(3u32), 6 => 100u32..5000],
+        4u8..=16,
+        proptest::collection::vec(any::<u16>(), 0..6),
+        prop_oneof![
+            1 => proptest::collection::vec(op_strategy(t), 0..=15),
+            4 => proptest::collection::vec(op_strategy(t), 25..=max_ops),
+        ],
+    )
+        .prop_map(move |(seq, sweep_every, probes, ops)| Case { target: t, seq, sweep_every, probes, ops })
+        .boxed()
+}
+
+// ------------------------------------------------------------------------------------ model
+
+#[derive(Clone, Debug, PartialEq, Eq)]
+struct EndOfLedger {
+    votes: [u128; N],
+    total: u128,
+}
+
+struct Model {
+    units: [u128; N],
+    deleg: [Option<usize>; N],
+    /// end-of-ledger snapshot of every ledger in which a successful operation happened
+    hist: BTreeMap<u32, EndOfLedger>,
+    /// ledgers in which an operation changed the account's votes
+    written: [BTreeSet<u32>; N],
+    /// number of vote-changing operations per (account, ledger)
+    writes: BTreeMap<(usize, u32), u32>,
+    /// NFT flavour: live tokens (id, owner)
+    tokens: Vec<(u32, usize)>,
+    burned: Vec<u32>,
+    next_explicit: u32,
+}
+
+impl Model {
+    fn new() -> Model {
+        Model {
+            units: [0; N],
+            deleg: [None; N],
+            hist: BTreeMap::new(),
+            written: Default::default(),
+            writes: BTreeMap::new(),
+            tokens: vec![],
+            burned: vec![],
+            next_explicit: EXPLICIT_BASE,
+        }
+    }
+    /// the statement: votes(a) = Σ units of the accounts currently delegating to a
+    fn votes(&self) -> [u128; N] {
+        let mut v = [0u128; N];
+        for x in 0..N {
+            if let Some(d) = self.deleg[x] {
+                v[d] += self.units[x];
+            }
+        }
+        v
+    }
+    fn total(&self) -> u128 {
+        self.units.iter().sum()
+    }
+    /// value that held at the end of ledger `q` (0 before the first write)
+    fn at(&self, q: u32) -> EndOfLedger {
+        match self.hist.range(..=q).next_back() {
+            Some((_, s)) => s.clone(),
+            None => EndOfLedger { votes: [0; N], total: 0 },
+        }
+    }
+    /// record the state after a successful operation executed in ledger `now`
+    fn commit(&mut self, before: [u128; N], now: u32) {
+        let after = self.votes();
+        for a in 0..N {
+            if after[a] != before[a] {
+                self.written[a].insert(now);
+                *self.writes.entry((a, now)).or_insert(0) += 1;
+            }
+        }
+        self.hist.insert(now, EndOfLedger { votes: after, total: self.total() });
+    }
+}
+
+// ------------------------------------------------------------------------------------ driver
+
+struct Tok {
+    e: Env,
+    addr: Address,
+    target: Target,
+    admin: Address,
+    accts: Vec<Address>,
+}
+
+fn panic_text(p: Box<dyn std::any::Any + Send>) -> String {
+    if let Some(s) = p.downcast_ref::<String>() {
+        s.clone()
+    } else if let Some(s) = p.downcast_ref::<&str>() {
+        s.to_string()
+    } else {
+        "panic".to_string()
+    }
+}
+
+/// current observable state read with the library's own getters in one contract frame
+#[derive(Debug)]
+struct Snap {
+    units: [u128; N],
+    votes: [u128; N],
+    deleg: [Option<usize>; N],
+    deleg_unknown: bool,
+    ncp: [u32; N],
+    total: u128,
+    /// token balance (token flavours), as i128 to hold a (wrong) negative value
+    bal: [i128; N],
+}
+
+impl Tok {
+    fn setup(target: Target, seq: u32) -> Result<Tok, Violation> {
+        let e = envx::new_env(seq, envx::BIG_TTL);
+        // the SDK's default per-invocation "mainnet resource limits" would abort the process (panic inside a
+        // drop guard) when a bulk sweep frame or a runaway lookup exceeds them; the budget guard in `sweep`
+        // is what bounds work here
+        e.cost_estimate().disable_resource_limits();
+        let admin = envx::actor(&e);
+        let accts = envx::actors(&e, N);
+        let addr = match target {
+            Target::ExVotes => e.register(ExVotesContract, (admin.clone(),)),
+            Target::FtVotes => e.register(FtVotes, (admin.clone(),)),
+            Target::NftVotes => e.register(NftVotes, (admin.clone(),)),
+            Target::Lib => e.register(VotesLib, ()),
+        };
+        let t = Tok { e, addr, target, admin, accts };
+        // set-up: allowances / operator approvals for every (owner, spender) pair so that
+        // transfer_from / burn_from are exercised (allowances are not C13's subject)
+        let e = &t.e;
+        let live = seq.saturating_add(5000);
+        for o in 0..N {
+            for s in 0..N {
+                let (func, args) = match target {
+                    Target::ExVotes | Target::FtVotes => {
+                        ("approve", crate::args![e; t.accts[o].clone(), t.accts[s].clone(), i128::MAX, live])
+                    }
+                    Target::NftVotes => {
+                        if o == s {
+                            continue;
+                        }
+                        ("approve_for_all", crate::args![e; t.accts[o].clone(), t.accts[s].clone(), live])
+                    }
+                    Target::Lib => continue,
+                };
+                let inv = Inv::new(&t.addr, func, args.clone());
+                envx::set_auth(e, &[(&t.accts[o], &inv)]);
+                let r = envx::call(e, &t.addr, func, args);
+                ensure!(r.is_ok(), "C13/setup/approve-failed", "{func} of account {o} for {s} failed: {:?}", r);
+            }
+        }
+        envx::no_auth(e);
+        Ok(t)
+    }
+
+    fn idx_of(&self, a: &Address) -> Option<usize> {
+        self.accts.iter().position(|x| x == a)
+    }
+
+    fn snap(&self) -> Result<Snap, String> {
+        let e = &self.e;
+        let r = catch_unwind(AssertUnwindSafe(|| {
+            e.as_contract(&self.addr, || {
+                let mut s = Snap {
+                    units: [0; N],
+                    votes: [0; N],
+                    deleg: [None; N],
+                    deleg_unknown: false,
+                    ncp: [0; N],
+                    total: lib::get_total_supply(e),
+                    bal: [0; N],
+                };
+                for (i, a) in self.accts.iter().enumerate() {
+                    s.units[i] = lib::get_voting_units(e, a);
+                    s.votes[i] = lib::get_votes(e, a);
+                    s.ncp[i] = lib::num_checkpoints(e, a);
+                    if let Some(d) = lib::get_delegate(e, a) {
+                        match self.idx_of(&d) {
+                            Some(j) => s.deleg[i] = Some(j),
+                            None => s.deleg_unknown = true,
+                        }
+                    }
+                    s.bal[i] = match self.target {
+                        Target::ExVotes | Target::FtVotes => stellar_tokens::fungible::Base::balance(e, a),
+                        Target::NftVotes => stellar_tokens::non_fungible::Base::balance(e, a) as i128,
+                        Target::Lib => 0,
+                    };
+                }
+                s
+            })
+        }));
+        r.map_err(panic_text)
+    }
+
+    /// bulk past-query sweep over `ledgers` (all < current) for every account and the total;
+    /// returns the first disagreement with the model
+    fn sweep(&self, m: &Model, ledgers: &[u32]) -> Result<Option<String>, String> {
+        let e = &self.e;
+        let r = catch_unwind(AssertUnwindSafe(|| {
+            e.as_contract(&self.addr, || {
+                for &q in ledgers {
+                    let want = m.at(q);
+                    for (i, a) in self.accts.iter().enumerate() {
+                        e.cost_estimate().budget().reset_limits(QUERY_CPU, QUERY_MEM);
+                        let got = lib::get_votes_at_checkpoint(e, a, q);
+                        if got != want.votes[i] {
+                            return Some(format!(
+                                "get_votes_at_checkpoint(account {i}, ledger {q}) = {got}, value at the end of that ledger was {}",
+                                want.votes[i]
+                            ));
+                        }
+                    }
+                    e.cost_estimate().budget().reset_limits(QUERY_CPU, QUERY_MEM);
+                    let got = lib::get_total_supply_at_checkpoint(e, q);
+                    if got != want.total {
+                        return Some(format!(
+                            "T:get_total_supply_at_checkpoint(ledger {q}) = {got}, value at the end of that ledger was {}",
+                            want.total
+                        ));
+                    }
+                }
+                None
+            })
+        }));
+        e.cost_estimate().budget().reset_unlimited();
+        r.map_err(panic_text)
+    }
+
+    fn api<T: TryFromVal<Env, Val>>(&self, f: &str, args: SVec<Val>) -> Result<T, String> {
+        envx::no_auth(&self.e);
+        envx::call_t::<T>(&self.e, &self.addr, f, args)
+    }
+}
+
+/// what the model does when the call succeeds
+enum Effect {
+    Move { from: Option<usize>, to: Option<usize>, amt: u128 },
+    NftMint { to: usize, id: Option<u32> },
+    NftMove { tok: usize, to: usize },
+    NftBurn { tok: usize },
+    Deleg { who: usize, to: usize },
+    /// a call the model refuses; nothing to apply
+    Nothing,
+}
+
+struct Planned {
+    func: &'static str,
+    args: SVec<Val>,
+    signer: Option<Address>,
+    eff: Effect,
+    expect_ok: bool,
+    /// documented reason when `expect_ok` is false
+    why_not: &'static str,
+}
+
+fn resolve_amt(t: Target, amt: &Amt, bal: u128) -> i128 {
+    // token flavours: i128 domain; amounts stay far below i128::MAX / 60 so that neither the
+    // supply nor the set-up allowance can be exhausted by a history of <= 90 operations
+    let b = bal as i128;
+    match amt {
+        Amt::Abs(x) => *x as i128,
+        Amt::Huge(k) => {
+            debug_assert!(t.is_fungible());
+            (1i128 << 100) >> *k
+        }
+        Amt::Frac(n) => {
+            let n = (*n).min(4) as i128;
+            if n == 4 {
+                b
+            } else {
+                b / 4 * n + (b % 4) * n / 4
+            }
+        }
+        Amt::BalPlus(d) => b + *d as i128,
+    }
+}
+
+fn resolve_amt_lib(amt: &Amt, bal: u128) -> u128 {
+    match amt {
+        Amt::Abs(x) => *x as u128,
+        Amt::Huge(k) => u128::MAX >> *k,
+        Amt::Frac(n) => {
+            let n = (*n).min(4) as u128;
+            if n == 4 {
+                bal
+            } else {
+                bal / 4 * n + (bal % 4) * n / 4
+            }
+        }
+        Amt::BalPlus(d) => {
+            if *d >= 0 {
+                bal.saturating_add(*d as u128)
+            } else {
+                bal.saturating_sub(1)
+            }
+        }
+    }
+}
+
+/// NFT: pick a token for a sender; `foreign` asks for a token the sender does not own
+fn pick_token(m: &Model, from: usize, sel: u16, foreign: bool) -> (u32, Option<usize>, bool) {
+    // returns (token id, index in m.tokens if live, owned by from)
+    let own: Vec<usize> = m.tokens.iter().enumerate().filter(|(_, (_, o))| *o == from).map(|(i, _)| i).collect();
+    let other: Vec<usize> = m.tokens.iter().enumerate().filter(|(_, (_, o))| *o != from).map(|(i, _)| i).collect();
+    if !foreign && !own.is_empty() {
+        let i = own[pick(sel, own.len())];
+        return (m.tokens[i].0, Some(i), true);
+    }
+    if !other.is_empty() {
+        let i = other[pick(sel, other.len())];
+        return (m.tokens[i].0, Some(i), false);
+    }
+    if foreign && !own.is_empty() {
+        // nothing foreign exists: a burned or never-minted id
+        let id = if m.burned.is_empty() { EXPLICIT_BASE - 1 } else { m.burned[pick(sel, m.burned.len())] };
+        return (id, None, false);
+    }
+    let id = if m.burned.is_empty() { EXPLICIT_BASE - 1 } else { m.burned[pick(sel, m.burned.len())] };
+    (id, None, false)
+}
+
+fn plan(t: &Tok, m: &Model, op: &Op, ctx: &mut Ctx) -> Option<Planned> {
+    let e = &t.e;
+    let acct = |s: u16| pick(s, N);
+    // sender selector: odd `tok` restricts the choice to accounts that currently hold units (if any),
+    // so that most transfers/burns move something; even `tok` keeps the raw choice (empty senders)
+    let holder = |s: u16, tok: u16| {
+        let h: Vec<usize> = (0..N).filter(|x| m.units[*x] > 0).collect();
+        if tok & 1 == 1 && !h.is_empty() {
+            h[pick(s, h.len())]
+        } else {
+            pick(s, N)
+        }
+    };
+    let a = |i: usize| t.accts[i].clone();
+    let tg = t.target;
+    match op {
+        Op::Advance { .. } => None,
+        Op::Mint { to, amt, explicit } => {
+            let ti = acct(*to);
+            match tg {
+                Target::ExVotes | Target::FtVotes => {
+                    let x = resolve_amt(tg, amt, m.units[ti]);
+                    let args = crate::args![e; a(ti), x];
+                    let ok = x >= 0 && (m.total() as i128).checked_add(x).is_some();
+                    Some(Planned {
+                        func: "mint",
+                        args,
+                        signer: Some(t.admin.clone()),
+                        eff: if ok { Effect::Move { from: None, to: Some(ti), amt: x as u128 } } else { Effect::Nothing },
+                        expect_ok: ok,
+                        why_not: "negative amount or supply overflow",
+                    })
+                }
+                Target::NftVotes => {
+                    if *explicit {
+                        let id = m.next_explicit;
+                        Some(Planned {
+                            func: "mint_id",
+                            args: crate::args![e; a(ti), id],
+                            signer: Some(t.admin.clone()),
+                            eff: Effect::NftMint { to: ti, id: Some(id) },
+                            expect_ok: true,
+                            why_not: "",
+                        })
+                    } else {
+                        Some(Planned {
+                            func: "mint",
+                            args: crate::args![e; a(ti)],
+                            signer: Some(t.admin.clone()),
+                            eff: Effect::NftMint { to: ti, id: None },
+                            expect_ok: true,
+                            why_not: "",
+                        })
+                    }
+                }
+                Target::Lib => {
+                    let x = resolve_amt_lib(amt, m.units[ti]);
+                    let ok = m.total().checked_add(x).is_some();
+                    if !ok {
+                        ctx.class("lib_mint_overflow_attempt");
+                    }
+                    Some(Planned {
+                        func: "transfer_voting_units",
+                        args: crate::args![e; Option::<Address>::None, Some(a(ti)), x],
+                        signer: None,
+                        eff: if ok { Effect::Move { from: None, to: Some(ti), amt: x } } else { Effect::Nothing },
+                        expect_ok: ok,
+                        why_not: "total supply overflow (MathOverflow)",
+                    })
+                }
+            }
+        }
+        Op::Burn { from, amt, tok } | Op::BurnFrom { from, amt, tok, .. } => {
+            let fi = holder(*from, *tok);
+            let spender = match op {
+                Op::BurnFrom { spender, .. } => Some(acct(*spender)),
+                _ => None,
+            };
+            match tg {
+                Target::ExVotes => {
+                    ctx.class("skipped_op");
+                    None
+                }
+                Target::FtVotes => {
+                    let x = resolve_amt(tg, amt, m.units[fi]);
+                    let ok = x >= 0 && (x as u128) <= m.units[fi];
+                    let eff = if ok { Effect::Move { from: Some(fi), to: None, amt: x as u128 } } else { Effect::Nothing };
+                    Some(match spender {
+                        None => Planned {
+                            func: "burn",
+                            args: crate::args![e; a(fi), x],
+                            signer: Some(a(fi)),
+                            eff,
+                            expect_ok: ok,
+                            why_not: "negative amount or insufficient balance",
+                        },
+                        Some(si) => Planned {
+                            func: "burn_from",
+                            args: crate::args![e; a(si), a(fi), x],
+                            signer: Some(a(si)),
+                            eff,
+                            expect_ok: ok,
+                            why_not: "negative amount or insufficient balance",
+                        },
+                    })
+                }
+                Target::NftVotes => {
+                    let foreign = matches!(amt, Amt::BalPlus(1));
+                    let (id, ix, owned) = pick_token(m, fi, *tok, foreign);
+                    let eff = if owned { Effect::NftBurn { tok: ix.unwrap() } } else { Effect::Nothing };
+                    Some(match spender {
+                        None => Planned {
+                            func: "burn",
+                            args: crate::args![e; a(fi), id],
+                            signer: Some(a(fi)),
+                            eff,
+                            expect_ok: owned,
+                            why_not: "token not owned by `from` / non-existent",
+                        },
+                        Some(si) => Planned {
+                            func: "burn_from",
+                            args: crate::args![e; a(si), a(fi), id],
+                            signer: Some(a(si)),
+                            eff,
+                            expect_ok: owned,
+                            why_not: "token not owned by `from` / non-existent",
+                        },
+                    })
+                }
+                Target::Lib => {
+                    let x = resolve_amt_lib(amt, m.units[fi]);
+                    let ok = x == 0 || x <= m.units[fi];
+                    Some(Planned {
+                        func: "transfer_voting_units",
+                        args: crate::args![e; Some(a(fi)), Option::<Address>::None, x],
+                        signer: None,
+                        eff: if ok { Effect::Move { from: Some(fi), to: None, amt: x } } else { Effect::Nothing },
+                        expect_ok: ok,
+                        why_not: "more voting units than available (InsufficientVotingUnits)",
+                    })
+                }
+            }
+        }
+        Op::Transfer { from, to, amt, tok } | Op::TransferFrom { from, to, amt, tok, .. } => {
+            let fi = holder(*from, *tok);
+            let ti = acct(*to);
+            let spender = match op {
+                Op::TransferFrom { spender, .. } if tg != Target::Lib => Some(acct(*spender)),
+                _ => None,
+            };
+            match tg {
+                Target::ExVotes | Target::FtVotes => {
+                    let x = resolve_amt(tg, amt, m.units[fi]);
+                    let ok = x >= 0 && (x as u128) <= m.units[fi];
+                    let eff = if ok { Effect::Move { from: Some(fi), to: Some(ti), amt: x as u128 } } else { Effect::Nothing };
+                    Some(match spender {
+                        None => Planned {
+                            func: "transfer",
+                            args: crate::args![e; a(fi), a(ti), x],
+                            signer: Some(a(fi)),
+                            eff,
+                            expect_ok: ok,
+                            why_not: "negative amount or insufficient balance",
+                        },
+                        Some(si) => Planned {
+                            func: "transfer_from",
+                            args: crate::args![e; a(si), a(fi), a(ti), x],
+                            signer: Some(a(si)),
+                            eff,
+                            expect_ok: ok,
+                            why_not: "negative amount or insufficient balance",
+                        },
+                    })
+                }
+                Target::NftVotes => {
+                    let foreign = matches!(amt, Amt::BalPlus(1));
+                    let (id, ix, owned) = pick_token(m, fi, *tok, foreign);
+                    let eff = if owned { Effect::NftMove { tok: ix.unwrap(), to: ti } } else { Effect::Nothing };
+                    Some(match spender {
+                        None => Planned {
+                            func: "transfer",
+                            args: crate::args![e; a(fi), a(ti), id],
+                            signer: Some(a(fi)),
+                            eff,
+                            expect_ok: owned,
+                            why_not: "token not owned by `from` / non-existent",
+                        },
+                        Some(si) => Planned {
+                            func: "transfer_from",
+                            args: crate::args![e; a(si), a(fi), a(ti), id],
+                            signer: Some(a(si)),
+                            eff,
+                            expect_ok: owned,
+                            why_not: "token not owned by `from` / non-existent",
+                        },
+                    })
+                }
+                Target::Lib => {
+                    let x = resolve_amt_lib(amt, m.units[fi]);
+                    let ok = x == 0 || x <= m.units[fi];
+                    Some(Planned {
+                        func: "transfer_voting_units",
+                        args: crate::args![e; Some(a(fi)), Some(a(ti)), x],
+                        signer: None,
+                        eff: if ok { Effect::Move { from: Some(fi), to: Some(ti), amt: x } } else { Effect::Nothing },
+                        expect_ok: ok,
+                        why_not: "more voting units than available (InsufficientVotingUnits)",
+                    })
+                }
+            }
+        }
+        Op::Delegate { who, to } => {
+            let wi = acct(*who);
+            let cur = m.deleg[wi];
+            let di = match to {
+                DelSel::SelfD => wi,
+                DelSel::Acct(s) => acct(*s),
+                DelSel::Current => cur.unwrap_or(wi),
+                DelSel::Changed(s) => {
+                    let cands: Vec<usize> = (0..N).filter(|x| Some(*x) != cur).collect();
+                    cands[pick(*s, cands.len())]
+                }
+            };
+            let ok = cur != Some(di);
+            Some(Planned {
+                func: "delegate",
+                args: crate::args![e; a(wi), a(di)],
+                signer: Some(a(wi)),
+                eff: if ok { Effect::Deleg { who: wi, to: di } } else { Effect::Nothing },
+                expect_ok: ok,
+                why_not: "delegatee is already the current delegate (SameDelegate)",
+            })
+        }
+    }
+}
+
+fn check_current(t: &Tok, m: &Model, prev_ncp: &mut [u32; N], what: &str) -> R {
+    let s = t.snap().map_err(|p| violation("C13/getters/panicked", format!("after {what}: a current-state getter panicked: {p}")))?;
+    let votes = m.votes();
+    ensure!(!s.deleg_unknown, "C13/get_delegate/mismatch", "after {what}: a delegate outside the universe is reported");
+    for a in 0..N {
+        if t.target.is_token() {
+            ensure!(
+                s.bal[a] >= 0 && s.units[a] == s.bal[a] as u128,
+                "C13/get_voting_units/ne-balance",
+                "after {what}: get_voting_units(account {a}) = {} but token balance = {}",
+                s.units[a],
+                s.bal[a]
+            );
+            ensure!(
+                s.bal[a] as u128 == m.units[a],
+                "C13/balance/ne-model",
+                "after {what}: token balance(account {a}) = {}, expected {}",
+                s.bal[a],
+                m.units[a]
+            );
+        }
+        ensure!(
+            s.units[a] == m.units[a],
+            "C13/get_voting_units/ne-model",
+            "after {what}: get_voting_units(account {a}) = {}, expected {}",
+            s.units[a],
+            m.units[a]
+        );
+        ensure!(
+            s.deleg[a] == m.deleg[a],
+            "C13/get_delegate/mismatch",
+            "after {what}: get_delegate(account {a}) = {:?}, expected {:?}",
+            s.deleg[a],
+            m.deleg[a]
+        );
+    }
+    for a in 0..N {
+        ensure!(
+            s.votes[a] == votes[a],
+            "C13/get_votes/ne-delegated-units",
+            "after {what}: get_votes(account {a}) = {} but the accounts delegating to it hold {} (units {:?}, delegates {:?})",
+            s.votes[a],
+            votes[a],
+            m.units,
+            m.deleg
+        );
+    }
+    ensure!(
+        s.total == m.total(),
+        "C13/get_total_supply/ne-sum-units",
+        "after {what}: get_total_supply() = {} but the voting units sum to {} ({:?})",
+        s.total,
+        m.total(),
+        m.units
+    );
+    for a in 0..N {
+        let want = m.written[a].len() as u32;
+        ensure!(
+            s.ncp[a] >= prev_ncp[a],
+            "C13/num_checkpoints/decreased",
+            "after {what}: num_checkpoints(account {a}) went from {} to {}",
+            prev_ncp[a],
+            s.ncp[a]
+        );
+        ensure!(
+            s.ncp[a] <= want,
+            "C13/num_checkpoints/not-coalesced",
+            "after {what}: num_checkpoints(account {a}) = {} but its votes were written in only {} distinct ledgers {:?}",
+            s.ncp[a],
+            want,
+            m.written[a]
+        );
+        ensure!(
+            s.ncp[a] == want,
+            "C13/num_checkpoints/fewer-than-written-ledgers",
+            "after {what}: num_checkpoints(account {a}) = {} but its votes were written in {} distinct ledgers {:?}",
+            s.ncp[a],
+            want,
+            m.written[a]
+        );
+        prev_ncp[a] = s.ncp[a];
+    }
+    Ok(())
+}
+
+/// entry-point reads of one account (public API agrees with the model)
+fn check_api_account(t: &Tok, m: &Model, a: usize, what: &str, full: bool) -> R {
+    let e = &t.e;
+    let acc = t.accts[a].clone();
+    let v: u128 =
+        t.api("get_votes", crate::args![e; acc.clone()]).map_err(|er| violation("C13/api/get_votes-failed", format!("after {what}: {er}")))?;
+    ensure!(v == m.votes()[a], "C13/api/get_votes-mismatch", "after {what}: get_votes(account {a}) = {v}, expected {}", m.votes()[a]);
+    let d: Option<Address> = t
+        .api("get_delegate", crate::args![e; acc.clone()])
+        .map_err(|er| violation("C13/api/get_delegate-failed", format!("after {what}: {er}")))?;
+    let di = d.as_ref().and_then(|x| t.idx_of(x));
+    ensure!(
+        d.is_some() == m.deleg[a].is_some() && di == m.deleg[a],
+        "C13/api/get_delegate-mismatch",
+        "after {what}: get_delegate(account {a}) = {:?}, expected {:?}",
+        di,
+        m.deleg[a]
+    );
+    if full {
+        match t.target {
+            Target::ExVotes | Target::FtVotes => {
+                let b: i128 = t
+                    .api("balance", crate::args![e; acc.clone()])
+                    .map_err(|er| violation("C13/api/balance-failed", format!("after {what}: {er}")))?;
+                ensure!(b >= 0 && b as u128 == m.units[a], "C13/api/balance-mismatch", "after {what}: balance(account {a}) = {b}, expected {}", m.units[a]);
+            }
+            Target::NftVotes => {
+                let b: u32 = t
+                    .api("balance", crate::args![e; acc.clone()])
+                    .map_err(|er| violation("C13/api/balance-failed", format!("after {what}: {er}")))?;
+                ensure!(b as u128 == m.units[a], "C13/api/balance-mismatch", "after {what}: balance(account {a}) = {b}, expected {}", m.units[a]);
+            }
+            Target::Lib => {}
+        }
+        if matches!(t.target, Target::NftVotes | Target::Lib) {
+            let u: u128 = t
+                .api("get_voting_units", crate::args![e; acc.clone()])
+                .map_err(|er| violation("C13/api/get_voting_units-failed", format!("after {what}: {er}")))?;
+            ensure!(u == m.units[a], "C13/api/get_voting_units-mismatch", "after {what}: get_voting_units(account {a}) = {u}, expected {}", m.units[a]);
+            let n: u32 = t
+                .api("num_checkpoints", crate::args![e; acc.clone()])
+                .map_err(|er| violation("C13/api/num_checkpoints-failed", format!("after {what}: {er}")))?;
+            ensure!(
+                n as usize == m.written[a].len(),
+                "C13/api/num_checkpoints-mismatch",
+                "after {what}: num_checkpoints(account {a}) = {n}, expected {}",
+                m.written[a].len()
+            );
+        }
+    }
+    Ok(())
+}
+
+/// full sweep over every past ledger + entry-point probes + refused current/future queries
+fn check_past(t: &Tok, m: &Model, case: &Case, round: usize, what: &str, ctx: &mut Ctx) -> R {
+    let e = &t.e;
+    let cur = envx::seq(e);
+    let lo = case.seq.saturating_sub(2);
+    let mut ledgers: Vec<u32> = vec![];
+    if lo > 0 {
+        ledgers.push(0);
+        ledgers.push(lo / 2);
+    }
+    ledgers.extend(lo..cur);
+    let r = t
+        .sweep(m, &ledgers)
+        .map_err(|p| {
+            if p.contains("Budget") {
+                violation("C13/past-query/did-not-terminate", format!("after {what}: a query for a past ledger (< {cur}) exhausted {QUERY_CPU} cpu instructions: {p}"))
+            } else {
+                violation("C13/past-query/panicked", format!("after {what}: a query for a past ledger (< {cur}) panicked: {p}"))
+            }
+        })?;
+    if let Some(msg) = r {
+        if let Some(rest) = msg.strip_prefix("T:") {
+            bail!("C13/get_total_supply_at_checkpoint/ne-end-of-ledger", "after {what} (current ledger {cur}): {rest}; model history {:?}", m.hist);
+        }
+        bail!("C13/get_votes_at_checkpoint/ne-end-of-ledger", "after {what} (current ledger {cur}): {msg}; model history {:?}", m.hist);
+    }
+    ctx.class_n("past_queries", (ledgers.len() * (N + 1)) as u64);
+
+    // the same through the public entry points on a sample
+    for (j, p) in case.probes.iter().enumerate() {
+        if ledgers.is_empty() {
+            break;
+        }
+        let q = ledgers[pick(*p, ledgers.len())];
+        let a = (j + round) % N;
+        let want = m.at(q);
+        let v: u128 = t
+            .api("get_votes_at_checkpoint", crate::args![e; t.accts[a].clone(), q])
+            .map_err(|er| violation("C13/api/get_votes_at_checkpoint-failed", format!("after {what}: past ledger {q} (current {cur}) refused: {er}")))?;
+        ensure!(
+            v == want.votes[a],
+            "C13/api/get_votes_at_checkpoint-mismatch",
+            "after {what}: get_votes_at_checkpoint(account {a}, {q}) = {v}, expected {}",
+            want.votes[a]
+        );
+        let s: u128 = t
+            .api("get_total_supply_at_checkpoint", crate::args![e; q])
+            .map_err(|er| violation("C13/api/get_total_supply_at_checkpoint-failed", format!("after {what}: past ledger {q} (current {cur}) refused: {er}")))?;
+        ensure!(s == want.total, "C13/api/get_total_supply_at_checkpoint-mismatch", "after {what}: get_total_supply_at_checkpoint({q}) = {s}, expected {}", want.total);
+        ctx.class("past_query_entry_point");
+    }
+
+    // current and future ledgers are refused
+    let deltas = [0u32, 1, 0, 7, 0, u32::MAX - cur];
+    let d1 = deltas[round % deltas.len()];
+    let d2 = deltas[(round + 1) % deltas.len()];
+    let a = round % N;
+    let r: Result<u128, String> = t.api("get_votes_at_checkpoint", crate::args![e; t.accts[a].clone(), cur.saturating_add(d1)]);
+    ensure!(
+        r.is_err(),
+        "C13/get_votes_at_checkpoint/future-accepted",
+        "after {what}: get_votes_at_checkpoint(account {a}, {}) answered {:?} although the current ledger is {cur}",
+        cur.saturating_add(d1),
+        r
+    );
+    let r: Result<u128, String> = t.api("get_total_supply_at_checkpoint", crate::args![e; cur.saturating_add(d2)]);
+    ensure!(
+        r.is_err(),
+        "C13/get_total_supply_at_checkpoint/future-accepted",
+        "after {what}: get_total_supply_at_checkpoint({}) answered {:?} although the current ledger is {cur}",
+        cur.saturating_add(d2),
+        r
+    );
+    ctx.class_n("future_query_refused", 2);
+    if cur > lo {
+        // the most recent past ledger is always answerable
+        let q = cur - 1;
+        let v: u128 = t
+            .api("get_votes_at_checkpoint", crate::args![e; t.accts[a].clone(), q])
+            .map_err(|er| violation("C13/api/get_votes_at_checkpoint-failed", format!("after {what}: ledger current-1 = {q} refused: {er}")))?;
+        ensure!(
+            v == m.at(q).votes[a],
+            "C13/api/get_votes_at_checkpoint-mismatch",
+            "after {what}: get_votes_at_checkpoint(account {a}, current-1 = {q}) = {v}, expected {}",
+            m.at(q).votes[a]
+        );
+    }
+    Ok(())
+}
+
+pub fn run(case: &Case, ctx: &mut Ctx) -> R {
+    let t = Tok::setup(case.target, case.seq)?;
+    let e = &t.e;
+    let mut m = Model::new();
+    let mut prev_ncp = [0u32; N];
+    check_current(&t, &m, &mut prev_ncp, "genesis")?;
+
+    // non-triviality bookkeeping
+    let mut transfers_ok = 0u32;
+    let mut transfer_before_deleg = false; // a successful non-zero transfer happened
+    let mut deleg_after_transfer = false; // … then a successful delegation change of an account holding units
+    let mut interleaved = false; // … then another successful non-zero transfer
+    let mut round = 0usize;
+    let sweep_every = case.sweep_every.max(1) as usize;
+
+    for (step, op) in case.ops.iter().enumerate() {
+        let what = format!("step {step} {:?}", op);
+        if let Op::Advance { k } = op {
+            let span = envx::seq(e) - case.seq;
+            let k = (*k as u32).min(MAX_SPAN.saturating_sub(span)).min(u32::MAX - 2 - envx::seq(e));
+            envx::advance(e, k);
+            if k >= 2 {
+                ctx.class("gap_ledgers");
+            }
+            if k == 0 {
+                ctx.class("advance_zero");
+            }
+        } else if let Some(p) = plan(&t, &m, op, ctx) {
+            let now = envx::seq(e);
+            match &p.signer {
+                Some(who) => {
+                    let inv = Inv::new(&t.addr, p.func, p.args.clone());
+                    envx::set_auth(e, &[(who, &inv)]);
+                }
+                None => envx::no_auth(e),
+            }
+            let r = envx::call(e, &t.addr, p.func, p.args.clone());
+            ctx.op(r.is_ok());
+            if r.is_ok() && !p.expect_ok {
+                bail!(format!("C13/{}/accepted-invalid", p.func), "{what}: the call succeeded although: {}", p.why_not);
+            }
+            if let (Err(er), true) = (&r, p.expect_ok) {
+                bail!(
+                    format!("C13/{}/refused-valid", p.func),
+                    "{what}: the call failed ({er}) although the documented preconditions hold (units {:?}, delegates {:?})",
+                    m.units,
+                    m.deleg
+                );
+            }
+            if r.is_err() {
+                ctx.class("failed_call");
+                if p.func == "delegate" {
+                    ctx.class("same_delegate_refused");
+                }
+            } else {
+                let before = m.votes();
+                let mut moved: Option<(Option<usize>, Option<usize>, u128)> = None;
+                match p.eff {
+                    Effect::Nothing => {}
+                    Effect::Move { from, to, amt } => {
+                        if let Some(f) = from {
+                            m.units[f] -= amt;
+                        }
+                        if let Some(x) = to {
+                            m.units[x] += amt;
+                        }
+                        moved = Some((from, to, amt));
+                        if amt == 0 {
+                            ctx.class("zero_amount");
+                        }
+                        if let (Some(f), Some(_)) = (from, to) {
+                            if amt > 0 && m.units[f] == 0 {
+                                ctx.class("full_balance_transfer");
+                            }
+                        }
+                    }
+                    Effect::NftMint { to, id } => {
+                        let id = match id {
+                            Some(id) => {
+                                m.next_explicit += 1;
+                                id
+                            }
+                            None => {
+                                let v = r.clone().unwrap();
+                                match u32::try_from_val(e, &v) {
+                                    Ok(x) => x,
+                                    Err(_) => bail!("C13/setup/nft-mint-return", "{what}: sequential mint did not return a u32"),
+                                }
+                            }
+                        };
+                        ensure!(
+                            !m.tokens.iter().any(|(i, _)| *i == id),
+                            "C13/setup/nft-duplicate-id",
+                            "{what}: minted id {id} is already live (harness domain error)"
+                        );
+                        m.tokens.push((id, to));
+                        m.units[to] += 1;
+                        moved = Some((None, Some(to), 1));
+                    }
+                    Effect::NftMove { tok, to } => {
+                        let from = m.tokens[tok].1;
+                        m.tokens[tok].1 = to;
+                        m.units[from] -= 1;
+                        m.units[to] += 1;
+                        moved = Some((Some(from), Some(to), 1));
+                    }
+                    Effect::NftBurn { tok } => {
+                        let (id, from) = m.tokens.remove(tok);
+                        m.burned.push(id);
+                        m.units[from] -= 1;
+                        moved = Some((Some(from), None, 1));
+                    }
+                    Effect::Deleg { who, to } => {
+                        if m.deleg[who].is_some() {
+                            ctx.class("redelegate");
+                        }
+                        if who == to {
+                            ctx.class("delegate_self");
+                        }
+                        m.deleg[who] = Some(to);
+                        ctx.class("delegate_ok");
+                        if m.units[who] > 0 {
+                            ctx.class("delegate_with_units");
+                            if transfer_before_deleg {
+                                deleg_after_transfer = true;
+                            }
+                        }
+                    }
+                }
+                if let Some((from, to, amt)) = moved {
+                    match (from, to) {
+                        (None, Some(_)) => ctx.class("mint_ok"),
+                        (Some(_), None) => ctx.class("burn_ok"),
+                        (Some(f), Some(x)) => {
+                            ctx.class(if p.func == "transfer_from" { "transfer_from_ok" } else { "transfer_ok" });
+                            if f == x {
+                                ctx.class("self_transfer");
+                            }
+                            if amt > 0 && f != x {
+                                transfers_ok += 1;
+                                transfer_before_deleg = true;
+                                if deleg_after_transfer {
+                                    interleaved = true;
+                                }
+                            }
+                        }
+                        _ => {}
+                    }
+                }
+                m.commit(before, now);
+            }
+        }
+        check_current(&t, &m, &mut prev_ncp, &what)?;
+        // public entry points: one rotating account per step
+        check_api_account(&t, &m, step % N, &what, false)?;
+        if (step + 1) % sweep_every == 0 {
+            check_past(&t, &m, case, round, &what, ctx)?;
+            round += 1;
+        }
+    }
+
+    // final: every past ledger once more, and the public entry points for every account
+    check_past(&t, &m, case, round, "the last step", ctx)?;
+    for a in 0..N {
+        check_api_account(&t, &m, a, "the last step", true)?;
+    }
+    let s: u128 = t.api("get_total_supply", crate::args![e]).map_err(|er| violation("C13/api/get_total_supply-failed", er))?;
+    ensure!(s == m.total(), "C13/api/get_total_supply-mismatch", "final: get_total_supply() = {s}, expected {}", m.total());
+
+    // classes + non-triviality
+    let ge4 = (0..N).any(|a| m.written[a].len() >= 4);
+    let multi = m.writes.values().any(|c| *c >= 2);
+    if ge4 {
+        ctx.class("acct_ge4_checkpoints");
+    }
+    if multi {
+        ctx.class("same_ledger_overwrite");
+    }
+    if interleaved {
+        ctx.class("delegation_interleaved_with_transfers");
+    }
+    let _ = transfers_ok;
+    if ge4 && multi && interleaved {
+        ctx.nontrivial = true;
+        ctx.class("nontrivial");
+        ctx.class(&format!("nontrivial:{}", case.target.label()));
+    }
+    Ok(())
+}
+
+macro_rules! target_sub {
+    ($name:expr, $t:expr, $q:expr, $th:expr) => {{
+        fn strat(tier: Tier) -> BoxedStrategy<Case> {
+            strategy_for($t, tier)
+        }
+        gen_sub::<Case>($name, $q, $th, strat, run)
+    }};
+}
 
 pub fn property() -> Property {
-    Property { id: "C13", rule: "", subs: vec![], floors: vec![], assumptions: vec![] }
+    Property {
+        id: "C13",
+        rule: "case = (target in {example fungible-votes, FtVotes with burn, NftVotes, bare votes library}, start ledger, history of <=60 (thorough 90) \
+               mint/burn/burn_from/transfer/transfer_from/delegate/Advance(k in {0,0,0,1,1,2..10}) over 4 accounts with state-relative amounts, ledger span <= 200, exact authorization); \
+               non-trivial = some account ends with >=4 checkpoints, some account's votes are written >=2 times inside one ledger, and a successful delegation change of an \
+               account holding units lies between two successful non-zero transfers; distinct = distinct serialised case",
+        subs: vec![
+            target_sub!("ex-fungible-votes", Target::ExVotes, 350, 6000),
+            target_sub!("ft-votes", Target::FtVotes, 400, 7000),
+            target_sub!("nft-votes", Target::NftVotes, 350, 6000),
+            target_sub!("lib", Target::Lib, 400, 6000),
+        ],
+        // measured over seeds 0..3 (quick): nontrivial 528..597, acct_ge4 ~650, same_ledger_overwrite ~1200,
+        // interleaved ~950, same_delegate_refused ~1370, self_transfer ~3000, full_balance ~1050, zero_amount ~3850,
+        // redelegate ~3900, past_queries ~1.0M, future_query_refused ~14300, burn_ok ~2600, transfer_from_ok ~2700
+        floors: vec![
+            ("nontrivial", 50, 800),
+            ("nontrivial:ex-fungible-votes", 10, 150),
+            ("nontrivial:ft-votes", 10, 150),
+            ("nontrivial:nft-votes", 8, 120),
+            ("nontrivial:lib", 10, 150),
+            ("acct_ge4_checkpoints", 60, 900),
+            ("same_ledger_overwrite", 100, 1500),
+            ("delegation_interleaved_with_transfers", 90, 1400),
+            ("same_delegate_refused", 130, 2000),
+            ("redelegate", 350, 5000),
+            ("delegate_self", 300, 4500),
+            ("self_transfer", 300, 4500),
+            ("full_balance_transfer", 100, 1500),
+            ("zero_amount", 350, 5000),
+            ("burn_ok", 250, 3500),
+            ("transfer_from_ok", 250, 3500),
+            ("gap_ledgers", 700, 10000),
+            ("past_queries", 100_000, 1_500_000),
+            ("past_query_entry_point", 1500, 20000),
+            ("future_query_refused", 1400, 20000),
+        ],
+        assumptions: vec![
+            "Soroban native test host (storage, rollback of failed invocations, auth matching, ledger sequence) is trusted",
+            "universe = 4 accounts; delegatees are drawn from the same 4 accounts",
+            "token amounts stay below 2^101 so that neither the i128 supply nor the set-up allowances can be exhausted; the bare library is driven up to u128::MAX",
+            "the bare library is never called with from = to = None (the docs define None only as mint or burn side)",
+        ],
+    }
 }
